@@ -652,6 +652,7 @@ fn write_positionals_of(p: &Command) -> String {
                 .map(|s| s.to_string())
                 .map(|v| " -- ".to_owned() + &v)
                 .unwrap_or_else(|| "".to_owned())
+                .replace('\\', "\\\\")
                 .replace('[', "\\[")
                 .replace(']', "\\]")
                 .replace('\'', "'\\''")
